@@ -199,6 +199,7 @@ class Cfg:
         self.payload = False      # some sent events carry the context's list w itself as a parameter
         self.neg_delays = False   # sends also use negative delays
         self.nested_names = False  # names from NESTED_POOL (drawn by swarm in one run out of six)
+        self.dupconds = False     # now and then a contract list holds the very same condition text twice (C08)
         self.sentconds = False    # a third of the contract conditions also log sent('na'), sent('ea'), received('ea')
         self.brace = False        # some guard texts contain braces (they end up in error messages and exports)
         self.force_history = False
@@ -453,6 +454,8 @@ def decorate(sp, st, cfg, events):
             for _ in range(st.weighted([(0, 4), (1, 3), (2, 2), (3, 1)])):
                 out.append(sp.nconds + (EXT if cfg.sentconds and st.flag(1, 3) else 0))
                 sp.nconds += 1
+            if cfg.dupconds and out and st.flag(1, 4):
+                out.insert(st.choice(len(out) + 1), st.pick(out))     # the same text a second time: evaluated once per occurrence
             return out
         for s in sp.states.values():
             s.pre, s.post, s.inv = conds(0), conds(1), conds(2)
